@@ -34,7 +34,9 @@ type c12Scn struct {
 	CustomOpen   bool         `json:"custom_open"`
 	Attempts     []c12Attempt `json:"attempts"`
 	Args         []string     `json:"args,omitempty"`
-	Stdin        core.Bytes   `json:"stdin"`
+	// ArgvRuntime: the operands are not given in Config.Args but assigned to ARGV in BEGIN
+	ArgvRuntime bool       `json:"argv_runtime,omitempty"`
+	Stdin       core.Bytes `json:"stdin"`
 	// Faults: virtual name -> fault of the OpenFile seam (custom open only)
 	Faults map[string]string `json:"faults,omitempty"`
 }
@@ -112,7 +114,7 @@ func (c12Engine) Gen(r *core.Rand, tier string, i int) any {
 		a := c12Attempt{Kind: core.Pick(r, c12Kinds)}
 		switch a.Kind {
 		case "write", "append", "printf":
-			a.Target = core.Pick(r, []string{"out1", "out2", "out1", "in1", "-", "/dev/stdout", "/dev/stderr", "sub/out3"})
+			a.Target = core.Pick(r, []string{"out1", "out2", "out1", "in1", "-", "/dev/stdout", "/dev/stderr", "sub/out3", "/dev/fd/1", "/dev/fd/2"})
 		case "read", "read-var":
 			a.Target = core.Pick(r, []string{"in1", "in2", "in1", "missing", "-", "out1"})
 		case "close":
@@ -141,6 +143,7 @@ func (c12Engine) Gen(r *core.Rand, tier string, i int) any {
 			sc.Args = append(sc.Args, core.Pick(r, ops))
 		}
 	}
+	sc.ArgvRuntime = len(sc.Args) > 0 && r.Chance(1, 3)
 	sc.Stdin = core.Bytes("s1\ns2\ns3\n")
 	if sc.CustomOpen && r.Chance(1, 6) {
 		sc.Faults = map[string]string{core.Pick(r, []string{"out1", "in1", "out2"}): core.Pick(r, []string{"enoent", "eacces", "devfull", "readonly"})}
@@ -168,8 +171,13 @@ func awkStr(s string) string {
 }
 
 // c12Build generates the program text and the run-time name bindings.
-func c12Build(sc *c12Scn, nameOf func(target string) string) (src string, vars, environ []string, firstLine string) {
+func c12Build(sc *c12Scn, nameOf func(target string) string, args []string) (src string, vars, environ []string, firstLine string) {
 	var begin, rule, end, funcs, pre []string
+	if sc.ArgvRuntime {
+		for _, a := range args {
+			pre = append(pre, fmt.Sprintf("ARGV[ARGC++] = %s", awkStr(a)))
+		}
+	}
 	for i, a := range sc.Attempts {
 		k := i + 1
 		name := nameOf(a.Target)
@@ -255,6 +263,11 @@ func c12Build(sc *c12Scn, nameOf func(target string) string) (src string, vars, 
 	sb.WriteString("END { " + strings.Join(end, "; ") + " }\n")
 	return sb.String(), vars, environ, firstLine
 }
+
+// c12IsDevFd: /dev/fd/N names are ordinary file names for the interpreter (they must go through
+// the flags and the OpenFile seam like any other); only the content check is skipped for them
+// when the real os.OpenFile is in use, because they then denote the harness's own descriptors.
+func c12IsDevFd(t string) bool { return strings.HasPrefix(t, "/dev/fd/") }
 
 func c12IsSpecial(t string) bool { return t == "-" || t == "/dev/stdout" || t == "/dev/stderr" }
 
@@ -366,12 +379,21 @@ func (e c12Engine) Run(scAny any, keep bool) (out core.Outcome) {
 		case "cs":
 			return "cs;exit:3"
 		}
-		if c12IsSpecial(t) {
+		if c12IsSpecial(t) || c12IsDevFd(t) {
 			return t
 		}
 		return realName(t)
 	}
-	src, vars, environ, firstLine := c12Build(sc, nameOf)
+	var args []string
+	for _, a := range sc.Args {
+		switch a {
+		case "in1", "in2", "missing":
+			args = append(args, realName(a))
+		default:
+			args = append(args, a)
+		}
+	}
+	src, vars, environ, firstLine := c12Build(sc, nameOf, args)
 	st := &c12State{dones: map[int]float64{}, vals: map[int]string{}}
 	c12cur = st
 	prog, perr := parser.ParseProgram([]byte(src), &parser.ParserConfig{Funcs: c12funcs})
@@ -382,14 +404,8 @@ func (e c12Engine) Run(scAny any, keep bool) (out core.Outcome) {
 	if firstLine != "" {
 		stdin = append([]byte(firstLine+"\n"), stdin...)
 	}
-	var args []string
-	for _, a := range sc.Args {
-		switch a {
-		case "in1", "in2", "missing":
-			args = append(args, realName(a))
-		default:
-			args = append(args, a)
-		}
+	if sc.ArgvRuntime {
+		args = nil
 	}
 	stdout := core.NewSimSink("stdout", log)
 	stderr := core.NewSimSink("stderr", nil)
@@ -554,12 +570,20 @@ func (e c12Engine) Run(scAny any, keep bool) (out core.Outcome) {
 					return fail("openfile-bypassed", fmt.Sprintf("attempt %d wrote to %q but the custom OpenFile was never asked to open it for writing (events %+v)", k, a.Target, fs.Events))
 				}
 			}
+			if c12IsDevFd(a.Target) && !sc.CustomOpen {
+				continue
+			}
 			if !strings.Contains(after, fmt.Sprintf("w%d", k)) {
 				// a later '>' re-open after close may truncate: accept only if such a re-open exists
 				reopened := false
-				for _, k2 := range st.marks {
+				seenSelf := false
+				for _, k2 := range st.marks { // execution order, not attempt numbering
+					if k2 == k {
+						seenSelf = true
+						continue
+					}
 					a2 := sc.Attempts[k2-1]
-					if k2 > k && a2.Target == a.Target && (a2.Kind == "write" || a2.Kind == "printf") {
+					if seenSelf && a2.Target == a.Target && (a2.Kind == "write" || a2.Kind == "printf") {
 						reopened = true
 					}
 				}
@@ -580,7 +604,14 @@ func (e c12Engine) Run(scAny any, keep bool) (out core.Outcome) {
 						return fail("openfile-bypassed", fmt.Sprintf("attempt %d read %q but the custom OpenFile was never asked for it (events %+v)", k, a.Target, fs.Events))
 					}
 				}
-				if r == 1 && !strings.HasPrefix(st.vals[k], "i"+a.Target[2:]) {
+				rewritten := false // the program itself may have written the input file earlier
+				for _, k2 := range st.marks {
+					a2 := sc.Attempts[k2-1]
+					if a2.Target == a.Target && (a2.Kind == "write" || a2.Kind == "printf" || a2.Kind == "append") {
+						rewritten = true
+					}
+				}
+				if r == 1 && !rewritten && !strings.HasPrefix(st.vals[k], "i"+a.Target[2:]) {
 					return fail("permitted-read-wrong-data", fmt.Sprintf("attempt %d read %q from %s", k, st.vals[k], a.Target))
 				}
 				if r < 0 {
